@@ -105,4 +105,50 @@ let handle (line : string) : string =
   | tag :: _ when String.length tag >= 3 && String.sub tag 0 3 = "rel" -> "holds"
   | _ -> "unknown-case"
 
-let () = main handle
+(* The cases are independent: large inputs are spread round-robin over worker processes (C15_WORKERS,
+   default 8) and the observation lines are printed in input order. *)
+let safe_handle line = try handle line with e -> "model-exception " ^ Printexc.to_string e
+
+let () =
+  let lines =
+    let rec go acc = match input_line stdin with l -> go (l :: acc) | exception End_of_file -> List.rev acc in
+    Array.of_list (go [])
+  in
+  let n = Array.length lines in
+  let workers = try int_of_string (Sys.getenv "C15_WORKERS") with _ -> 8 in
+  if n < 64 || workers <= 1 then
+    Array.iter
+      (fun l ->
+        print_string (safe_handle l);
+        print_char '\n')
+      lines
+  else begin
+    let files = Array.init workers (fun k -> Filename.temp_file ("c15w" ^ string_of_int k ^ "_") ".out") in
+    flush stdout;
+    let pids =
+      Array.init workers (fun k ->
+          match Unix.fork () with
+          | 0 ->
+              let oc = open_out files.(k) in
+              let i = ref k in
+              while !i < n do
+                output_string oc (safe_handle lines.(!i));
+                output_char oc '\n';
+                i := !i + workers
+              done;
+              close_out oc;
+              Unix._exit 0
+          | pid -> pid)
+    in
+    Array.iter (fun pid -> ignore (Unix.waitpid [] pid)) pids;
+    let ics = Array.map open_in files in
+    for i = 0 to n - 1 do
+      print_string (try input_line ics.(i mod workers) with End_of_file -> "model-crash");
+      print_char '\n'
+    done;
+    Array.iteri
+      (fun k ic ->
+        close_in ic;
+        Sys.remove files.(k))
+      ics
+  end
